@@ -316,6 +316,8 @@ def run_fuzz(prop, targets, base_seed):
             os.makedirs(d, exist_ok=True)
             dst = os.path.join(d, "fuzz-%s-%s" % (name, f))
             shutil.move(os.path.join(tdir, f), dst)
+            # the fuzzer's report (failure message of the minimised input) is kept next to the input
+            open(dst + ".report.log", "w").write(r.stdout[-20000:])
             viol.append(("fuzz", dst))
         info.append(entry)
     return viol, info
